@@ -81,6 +81,7 @@ type Engine struct {
 	lastOp   string
 	prevOK   map[uint64]bool // reads that were made and right at the previous check
 	only     map[string]bool // when set, CheckAll reads these nodes only
+	rpc      map[string]*rpcPair
 }
 
 // opDeadline bounds one Store / RevertHead (hang detection). Generous: up to 14 histories and as many
@@ -280,7 +281,10 @@ func (e *Engine) Store(d *Desc) {
 			}
 		})
 		if !done {
-			serr = fmt.Errorf("Store did not return within %s", opDeadline)
+			// a harness deadline is a failure of the machinery, never a finding by itself
+			e.fatal("Store on %s did not return within %s (harness deadline)", n.name, opDeadline)
+			e.broken = n.name + " store: deadline"
+			return
 		}
 		if serr != nil {
 			e.broken = n.name + " store: " + serr.Error()
@@ -577,6 +581,7 @@ func (e *Engine) reopen() {
 	for _, n := range e.nodes[1:] {
 		n.bc = lib.NodeOn(n.store, e.g.Net, n.newSt)
 	}
+	e.rpc = nil // the handlers hold the old Blockchain
 }
 
 var (
